@@ -15,7 +15,7 @@ import common
 
 P = ""
 THEOREMS = [P + t for t in ["C17_unknown", "C17_malformed_number", "C17_malformed_number_old_witness", "C17_bool", "C17_constraint",
-                            "C17_expr", "C17_size", "C17_box", "C17_compile", "C17_exit", "C17_conversion_sites_strict"]]
+                            "C17_expr", "C17_size", "C17_box", "C17_compile", "C17_exit", "C17_conversion_sites_strict", "C17_result_size_strict"]]
 MODULES = ["Sympler.Validate", "Sympler.ValidateLemmas", "Sympler.Gen.ValidateGen", "Props.C17"]
 
 
